@@ -28,6 +28,22 @@ CHECKS = {
              "relative tolerance 1e-4 (neighbour relation) / 1e-5 (energy). Geometry theorems for arbitrary order (cos/sin monotonicity) are "
              "not formalised: the Gray-neighbour and energy clauses are decided per published table (all orders of the catalogue). Closed under the global context.",
         technique="Coq proof (bitwise induction on N) + kernel-evaluated verified checkers on published tables + model/implementation correspondence by vm_compute"),
+    "C15": dict(
+        text="Coq theorems over the reals (Coq Reals) for every LLR: P(bit=1) = sigmoid(-LLR) is strictly decreasing and is above 1/2 exactly "
+             "for negative LLRs; a probability-threshold consumer is monotone and at threshold 1/2 decides 1 iff LLR < 0; scaled LLR thresholding "
+             "with any positive scale likewise; hysteresis with lo <= 1/2 <= hi produces a 1 only from a negative LLR or an earlier 1 and stays at 0 "
+             "on every history of positive LLRs; over exact rationals, for every labelled table with distinct points and every positive constant and "
+             "noise variance, the sign consumer applied to the noise-free max-log output returns the transmitted bit. The conversion and comparison "
+             "each thresholder class applies in LLR mode are regenerated from the source (Gen/Thresholds.v) and the kernel decides polarity_ok on them; "
+             "every demodulator's noise-free soft output is fed to every LLR consumer on the implementation (both labellings of the same order in one "
+             "process, enum and plain-string mode spellings).",
+        design="6/C15",
+        note="Trusted: Coq kernel + vm_compute; translator harness/translate/thresholders.py; exp is the Coq Reals exponential, float32 sigmoid assumed "
+             "monotone with sigmoid(0)=1/2. Axioms (all from the Coq standard library, via Reals): ClassicalDedekindReals.sig_not_dec, "
+             "ClassicalDedekindReals.sig_forall_dec, FunctionalExtensionality.functional_extensionality_dep, Classical_Prop.classic (only the "
+             "real-number theorems; the rational composition theorem is closed). Data-dependent thresholders (adaptive, dynamic) are exercised on "
+             "balanced sequences only; the soft-input decoders (SC, BP, min-sum, Wagner) are covered through C10/C11 plus a +mag/-mag probe here.",
+        technique="Coq proof (Reals: monotonicity of exp; rationals: composition with the C06 demodulation model) + translator-regenerated decision rules decided by the kernel + producer x consumer oracle on the implementation"),
     "C16": dict(
         text="Coq theorems, generic in the per-batch count function (so BER, BLER, SER, FER alike): for every history of update/compute/"
              "reset operations (rejected updates included) compute() returns errors/max(total,1) of the batches accepted since the last "
